@@ -40,12 +40,18 @@ RULE = ("cases = (task, generated input(s) / unzipped tdms fixtures, task "
         "parameters, which stale output/temporary files exist) x fault "
         "position k (index into the recorded operation trace: every HDF5 "
         "write, group/attribute/dataset creation, object copy, link, "
-        "delete, file open, close, unlink, rename) x fault kind (OSError at "
-        "k | os._exit before k); quick enumerates a sample of k per case that "
-        "always contains the first and last operations, every open/close/"
-        "unlink/rename and their neighbours; thorough every k. A case is "
-        "non-trivial when the fault fired (the child did not run to "
-        "completion unharmed); distinct = different (case, k, kind)")
+        "delete, file open, close, unlink, rename) x fault kind (OSError "
+        "instead of operation k | os._exit before k | for open/close/unlink/"
+        "rename/copy/link also: operation k performed, then OSError); plus "
+        "SIGKILL at random times of unmodified runs and tasks failing on "
+        "their own (truncated input, split with a stale temporary file) - "
+        "oracle only; plus generated output names for the temporary-name "
+        "model. Quick runs a random sample of k per case, the structural "
+        "positions (first/last operations, every open/close/unlink/rename/"
+        "copy/link and their neighbours) first, within a wall-clock limit; "
+        "thorough every k (very long traces sampled). A fault case is "
+        "non-trivial when the fault fired; distinct = different "
+        "(case, k, kind)")
 TRUSTED_BASE = [
     "pathlib semantics of suffix/with_suffix as transcribed in "
     "Model/C10_paths.v (compared with the real setup_task_paths on generated "
@@ -54,9 +60,10 @@ TRUSTED_BASE = [
     "effect (outside the model: fail_op gives them no partial effect)",
     "HDF5/h5py behaviour when the process is killed with a file open for "
     "writing is outside the model (crash maps every open file to Junk); it "
-    "is covered only by the real kill runs, and SIGKILL in the middle of an "
-    "HDF5 flush / power loss / fsync ordering are not exercised (os._exit "
-    "happens between two h5py calls)",
+    "is covered only by the real kill runs (os._exit between two h5py calls, "
+    "plus SIGKILL at random times of unmodified runs, which may land inside "
+    "an HDF5 call); power loss / fsync ordering / a torn page cache are not "
+    "exercised",
     "exception unwinding closes open files and no handler renames or deletes "
     "(Model.unwind); checked on the real code by the raise runs",
     "harness/translators/cli_trace.py: the wrapped entry points are all the "
@@ -659,13 +666,15 @@ def judge(run, idx, res):
                      % obs["unexpected"][:4])
     if fails:
         desc = ("%s of %s at operation %d (%s): %s; %s" % (
-            kind, case["task"], k, op_desc(info, k), "; ".join(fails),
+            kind, case["task"], k, op_desc(info, k, kind), "; ".join(fails),
             "; ".join(obs["why"])))
         run.oracle_failure(cdesc, desc, classify(cdesc, desc))
     return fails
 
 
-def op_desc(info, k):
+def op_desc(info, k, kind=None):
+    if kind == "sigkill":
+        return "SIGKILL after %.1f%% of the fault-free duration" % (k / 10.0)
     if 0 <= k < len(info["details"]):
         return "%s %s %s" % tuple(info["details"][k])
     return "past the end"
@@ -789,6 +798,8 @@ def _run(run):
     _tick(run, "natural-failures")
     strace_crosscheck(run)
     _tick(run, "strace-crosscheck")
+    sigkill_runs(run)
+    _tick(run, "sigkill-runs")
     # ---- 2. fault enumeration -------------------------------------------
     if run.thorough:
         # every operation of every case; very long traces (tdms logs are
@@ -894,6 +905,64 @@ def _run(run):
                          what="state after the fault differs from the "
                               "model's prediction [out_i, tmp_i exists ..., "
                               "inputs unchanged] at %s" % op_desc(info, k))
+
+
+# --------------------------------------------------------------------------
+# asynchronous SIGKILL (not at an operation boundary): oracle only
+# --------------------------------------------------------------------------
+def sigkill_job(job):
+    """Run the task unmodified in a child and SIGKILL it after a fraction of
+    its fault-free duration - possibly in the middle of an HDF5 call."""
+    import signal
+    idx, permille = job
+    case, info = CASES[idx], INFO[idx]
+    d = _copy_template(idx)
+    w = os.path.join(d, "w")
+    sys.stdout.flush()
+    sys.stderr.flush()
+    t0 = time.time()
+    pid = os.fork()
+    if pid == 0:
+        code = 5
+        try:
+            devnull = os.open(os.devnull, os.O_WRONLY)
+            os.dup2(devnull, 1)
+            os.dup2(devnull, 2)
+            try:
+                run_task(case, info["lay"], w)
+                code = 0
+            except BaseException:  # noqa
+                code = 4
+        finally:
+            os._exit(code)
+    time.sleep(max(0.0, info["secs"] * permille / 1000.0))
+    try:
+        os.kill(pid, signal.SIGKILL)
+    except ProcessLookupError:
+        pass
+    _, status = os.waitpid(pid, 0)
+    code = os.waitstatus_to_exitcode(status)
+    obs = observe(idx, w, os.path.join(info["ref"], "w"), info["viol"])
+    shutil.rmtree(d, ignore_errors=True)
+    return dict(job=(idx, permille, "sigkill"), code=code, child={}, obs=obs,
+                secs=time.time() - t0)
+
+
+def sigkill_runs(run):
+    n = 480 if run.thorough else 48
+    ok = [i for i, info in enumerate(INFO) if info["err"] is None]
+    jobs = [(run.rng.choice(ok), run.rng.randint(0, 1300)) for _ in range(n)]
+    for res in pmap("sigkill_job", jobs):
+        if "crash" in res:
+            run.broken.append(("harness(C10)", "sigkill run crashed: %s" %
+                               res["crash"]))
+            continue
+        idx, permille, kind = res["job"]
+        cd = case_desc(idx, permille, kind)
+        run.record_case(cd, res["code"] == -9, sample=False)
+        run.count("fault:sigkill")
+        run.count("sigkill-exit:%s" % res["code"])
+        judge(run, idx, res)
 
 
 # --------------------------------------------------------------------------
@@ -1222,9 +1291,13 @@ def replay(payload):
             print("final state:", info["ref_obs"])
             bad = info["err"] is not None
         else:
-            res = fault_job((0, case["k"], case["kind"]))
+            if case["kind"] == "sigkill":
+                res = sigkill_job((0, case["k"]))
+            else:
+                res = fault_job((0, case["k"], case["kind"]))
             print("fault: %s at operation %d (%s)" % (
-                case["kind"], case["k"], op_desc(info, case["k"])))
+                case["kind"], case["k"],
+                op_desc(info, case["k"], case["kind"])))
             print("child exit code:", res["code"], res["child"])
             print("observed:", res["obs"])
 
